@@ -1,17 +1,57 @@
 /-
   C18 — GC actually reclaims: no superseded record survives in the collected range.
 
-  Proved (abstract log form, every log / range / key): a record of a key the tree knows survives the pass only if
-  it is THE last record of its key in the whole store, and no second record of that key survives in the range
-  (`C18_only_current`); the statistics kernel `GCFileState.addRecord` (regenerated) counts a record as released
-  exactly when it is not kept (`C18_stats`).
+  Proved about the concrete pass `Store.gcRun` (Model/GC.lean; tied to the real `GCMgr.gc` by engine `seq`), for every
+  bucket satisfying the invariants of C01/C02 and every range below the head (`C18_range_holds_only_current`): every
+  record the pass leaves in a file of the range is either THE last record of its key in the whole store with the tree
+  pointing at it — so no overwritten or deleted version survives and no key survives twice — or a delete marker of a
+  key the tree does not know, which only a pass that does not start at file 0 retains; and the earlier file GC merely
+  appended to keeps its old records as a prefix (`C18_appended_file_prefix`).
+  Abstract forms (every log / range / key): `C18_only_current`, `C18_superseded_dropped`; the regenerated statistics
+  kernel `GCFileState.addRecord` counts a record as released exactly when it is not kept (`C18_stats`).
   Tied by engine `seq`: after every pass the implementation's files of the range are scanned by an independent
-  scanner: every surviving record must be the current record of its key in the reference map (or a tombstone of a
-  key the rebuilt tree no longer knows), no live key twice; the per-pass counters (before/released, sizes) equal
-  the model's.  Partial: as C03, the concrete layout of `gcRun` is tied to the abstract pass per run, not proved.
+  scanner: every surviving record must be the current record of its key in the reference map (or a tombstone of a key
+  the rebuilt tree no longer knows), no live key twice; the per-pass counters equal the model's.
+  Partial: "running the same pass again releases nothing" is checked by the engine (second passes), not proved.
 -/
 import GoBeans.Lemmas.GCLog
+import GoBeans.Lemmas.GCFiles
 open Store Spec StoreLemmas
+
+/-- After a pass, a file of the range holds only current records (concrete pass, every reachable bucket). -/
+theorem C18_range_holds_only_current (hash : Key → Nat) (K : Key → Prop) (cfg : Store.Cfg) (hInj : InjOn hash K)
+    {n : Nat} {b : Bucket} {m : KV} (inv : Inv hash K n b m) (lr : LastRec hash K b) (w : WF cfg b) (nz : NoZero b)
+    (begin stop : Nat) (hbs : begin ≤ stop) (hs : stop < b.head)
+    (i : Nat) (hi1 : begin ≤ i) (hi2 : i ≤ stop) (o : Nat) (r : Rec)
+    (hmem : (o, r) ∈ ((gcRun hash cfg b begin stop).1.chunks i).recs) :
+    (∃ it, AMap.get (gcRun hash cfg b begin stop).1.tree (hash r.key) = some it ∧ it.pos = { chunk := i, off := o }
+        ∧ lastOf r.key (gcRun hash cfg b begin stop).1.log = some (({ chunk := i, off := o } : Pos), r))
+    ∨ (AMap.get (gcRun hash cfg b begin stop).1.tree (hash r.key) = none ∧ begin > 0 ∧ r.ver < 0) :=
+  gcRun_current hash K cfg hInj inv lr w nz begin stop hbs hs i hi1 hi2 o r hmem
+
+/-- no key the tree knows survives twice in the range -/
+theorem C18_each_once (hash : Key → Nat) (K : Key → Prop) (cfg : Store.Cfg) (hInj : InjOn hash K)
+    {n : Nat} {b : Bucket} {m : KV} (inv : Inv hash K n b m) (lr : LastRec hash K b) (w : WF cfg b) (nz : NoZero b)
+    (begin stop : Nat) (hbs : begin ≤ stop) (hs : stop < b.head)
+    (i j : Nat) (hi1 : begin ≤ i) (hi2 : i ≤ stop) (hj1 : begin ≤ j) (hj2 : j ≤ stop) (o o' : Nat) (r r' : Rec)
+    (h1 : (o, r) ∈ ((gcRun hash cfg b begin stop).1.chunks i).recs)
+    (h2 : (o', r') ∈ ((gcRun hash cfg b begin stop).1.chunks j).recs) (hk : r.key = r'.key)
+    (hknown : AMap.get (gcRun hash cfg b begin stop).1.tree (hash r.key) ≠ none) :
+    i = j ∧ o = o' ∧ r = r' := by
+  rcases gcRun_current hash K cfg hInj inv lr w nz begin stop hbs hs i hi1 hi2 o r h1 with ⟨it, a1, a2, a3⟩ | ⟨a1, _⟩
+  · rcases gcRun_current hash K cfg hInj inv lr w nz begin stop hbs hs j hj1 hj2 o' r' h2 with ⟨it', c1, c2, c3⟩ | ⟨c1, _⟩
+    · rw [← hk, a3] at c3
+      simp only [Option.some.injEq, Prod.mk.injEq, Pos.mk.injEq] at c3
+      exact ⟨c3.1.1, c3.1.2, c3.2⟩
+    · rw [← hk] at c1; exact absurd c1 hknown
+  · exact absurd a1 hknown
+
+/-- the earlier file GC merely appended to keeps its old records (as a prefix) -/
+theorem C18_appended_file_prefix (hash : Key → Nat) (K : Key → Prop) (cfg : Store.Cfg) (hInj : InjOn hash K)
+    {n : Nat} {b : Bucket} {m : KV} (inv : Inv hash K n b m) (lr : LastRec hash K b) (w : WF cfg b) (nz : NoZero b)
+    (begin stop : Nat) (hbs : begin ≤ stop) (hs : stop < b.head) (hd : gcDst cfg b begin < begin) :
+    ∃ ext, ((gcRun hash cfg b begin stop).1.chunks (gcDst cfg b begin)).recs = (b.chunks (gcDst cfg b begin)).recs ++ ext :=
+  (gcRun_touch hash K cfg hInj inv lr w nz begin stop hbs hs).2.2.1 hd
 
 /-- Only current records of known keys survive, each once. -/
 theorem C18_only_current (hasEntry : Key → Bool) (beginPos : Bool) (full mid : List (Pos × Rec)) (x : Pos × Rec)
